@@ -109,11 +109,10 @@ theorem floatStrBits_enc (sc : Score1) (h : sc.wf) : floatStrBits sc.enc = some 
     have n1 := u8_ne s.length 253 (by omega) (by omega)
     have n2 := u8_ne s.length 254 (by omega) (by omega)
     have n3 := u8_ne s.length 255 (by omega) (by omega)
-    cases hn : decToNat? (splitSign s).2 with
+    cases hn : parseF64 s with
     | none => simp [hn] at hd
-    | some n =>
-    have hlt : n < 2 ^ 53 := by simpa [hn] using hd
-    simp only [Score1.enc, floatStrBits, n1, n2, n3, if_false, Score1.bits, hn, hlt, if_true, Option.getD_some]
+    | some bits =>
+    simp only [Score1.enc, floatStrBits, n1, n2, n3, if_false, Score1.bits, hn, Option.getD_some]
 
 theorem zset1Elems_enc (items : List (SE × Score1)) (rest : Bytes) (h : ∀ p ∈ items, p.1.wf ∧ p.2.wf) :
     zset1Elems items.length (items.flatMap (fun p => p.1.enc ++ p.2.enc) ++ rest) =
@@ -281,14 +280,14 @@ theorem execCmd_pobjOf (x : XCfg) (k : Bytes) (o : ObjE) (hwf : o.wf) (hk : o.ki
     rw [this]
     rfl
   | hashZipmap w items =>
-    obtain ⟨hw, hv, hl, hi⟩ := hwf
+    obtain ⟨hw, hv, hi⟩ := hwf
     simp only [execCmd, pobjOf, ObjE.rtype, ObjE.ser, ObjE.cmds, ObjE.kind, ObjE.pairs, hashPairs]
     have ho : otypeOf 9 = some .hash := by decide
     simp only [ho, show ((9 : UInt8) = 4) = False by decide, show ((9 : UInt8) = 13) = False by decide,
       show ((9 : UInt8) = 16) = False by decide, if_false, if_true]
     rw [readString_enc' w hw]
     simp only
-    rw [hv, zipmapAll_blob items hl hi]
+    rw [hv, zipmapAll_blob items hi]
     rfl
   | hashZiplist w zl =>
     obtain ⟨hw, hv, hz, he⟩ := hwf
